@@ -38,6 +38,34 @@ StmtNodes(s) ==
       [] k = "jump" -> ExprNodes(s.a)
       [] OTHER -> {}
 
+RECURSIVE AllStmts(_)
+RECURSIVE StmtsOfExpr(_)
+SeqStmts(ss) == UNION {AllStmts(ss[i]) : i \in 1..Len(ss)}
+
+\* statements nested in statement-expressions of an expression
+StmtsOfExpr(e) == UNION {SeqStmts(n.body) : n \in {m \in ExprNodes(e) : m.k = "stmtexpr"}}
+
+ExprsOfStmt(s) ==
+    LET k == s.k IN
+    CASE k = "decl" -> IF s.init.k = "none" THEN {} ELSE {s.init}
+      [] k = "expr" -> {s.e}
+      [] k = "if" -> {s.c}
+      [] k = "for" -> (IF s.c.k = "none" THEN {} ELSE {s.c}) \cup (IF s.step.k = "none" THEN {} ELSE {s.step})
+      [] k \in {"while", "do"} -> {s.c}
+      [] k = "return" -> IF s.e.k = "none" THEN {} ELSE {s.e}
+      [] k = "store" -> {s.a, s.v}
+      [] k = "jump" -> {s.a}
+      [] OTHER -> {}
+
+AllStmts(s) ==
+    LET k == s.k
+        sub == CASE k = "block" -> SeqStmts(s.b)
+                 [] k = "if" -> SeqStmts(s.t) \cup SeqStmts(s.e)
+                 [] k = "for" -> (IF s.init.k = "none" THEN {} ELSE AllStmts(s.init)) \cup SeqStmts(s.body)
+                 [] k \in {"while", "do"} -> SeqStmts(s.body)
+                 [] OTHER -> {}
+    IN  {s} \cup sub \cup UNION {StmtsOfExpr(e) : e \in ExprsOfStmt(s)}
+
 PureCalls == {"extract32", "extract64", "sextract64", "deposit32", "deposit64", "bswap16", "bswap32", "bswap64",
               "REGFIELD", "get_corresponding_CS", "fatal"}
 IsHybrid(e) == e.k \in {"postfix", "stmtexpr"} \/ (e.k = "call" /\ e.f \notin PureCalls) \/ e.k = "assign"
@@ -104,8 +132,54 @@ ConstCondShared(body) ==
         \E arm \in {n.a, n.b} :
             LET la == LeavesE(arm) IN \E i \in 1..Len(la) : CountIn(all, la[i]) > CountIn(la, la[i])
 
+\* S4: an expression statement whose value is not used is itself a side-effecting operation
+\*     (x++;  f(a);  ({ ...; v; });): its pending effect has no consumer and is queued at the front
+UnusedHybridStmt(body) ==
+    \E st \in SeqStmts(body) : st.k = "expr" /\ st.e.k \in {"postfix", "stmtexpr", "call"} /\ IsHybrid(st.e)
+
+\* S5: a side-effecting operation inside the condition of a for loop (it is sequenced once, before the loop)
+LoopCondHybrid(body) ==
+    \E st \in SeqStmts(body) : st.k = "for" /\ st.c.k # "none" /\ ContainsHybrid(st.c)
+
+\* sub-routines called (transitively) from a body; csubs: name -> [params, ret, void, body]
+CalledIn(body) == {n.f : n \in {m \in SeqNodes(body) : m.k = "call"}}
+RECURSIVE Reach(_, _, _)
+Reach(todo, seen, csubs) ==
+    IF todo = {} THEN seen
+    ELSE LET f == CHOOSE x \in todo : TRUE
+             new == IF f \in DOMAIN csubs THEN CalledIn(csubs[f].body) \ (seen \cup {f}) ELSE {}
+         IN  Reach((todo \ {f}) \cup new, seen \cup {f}, csubs)
+Callees(body, csubs) == Reach(CalledIn(body), {}, csubs) \cap DOMAIN csubs
+
+\* a statement list in which a statement containing a return is followed by another statement
+RECURSIVE EarlyReturnList(_)
+HasReturn(st) == \E x \in AllStmts(st) : x.k = "return"
+SubLists(st) ==
+    CASE st.k = "block" -> {st.b}
+      [] st.k = "if" -> {st.t, st.e}
+      [] st.k \in {"for", "while", "do"} -> {st.body}
+      [] OTHER -> {}
+EarlyReturnList(ss) ==
+    \/ \E i \in 1..(Len(ss) - 1) : HasReturn(ss[i])
+    \/ \E i \in 1..Len(ss) : \E l \in SubLists(ss[i]) : EarlyReturnList(l)
+\* S6: the program calls a sub-routine in which a return is not the end of the body (the emitted body
+\*     does not stop at SETL ret_val: the statements after an early return still execute)
+CallsEarlyReturn(body, csubs) == \E f \in Callees(body, csubs) : EarlyReturnList(csubs[f].body)
+
+DeclNames(ss) == {st.n : st \in {x \in SeqStmts(ss) : x.k = "decl"}}
+\* S7: a local of the caller has the same name as a local of a (transitively) called sub-routine: callee
+\*     bodies are inlined into the caller's flat variable namespace
+CalleeLocalNameClash(body, csubs) ==
+    \E f \in Callees(body, csubs) : DeclNames(csubs[f].body) \cap DeclNames(body) # {}
+
+ShapesOfCase(body, csubs) ==
+    (IF CallsEarlyReturn(body, csubs) THEN {"CallsEarlyReturn"} ELSE {}) \cup
+    (IF CalleeLocalNameClash(body, csubs) THEN {"CalleeLocalNameClash"} ELSE {})
+
 ShapesOf(body) ==
     (IF ConstCondShared(body) THEN {"ConstCondShared"} ELSE {}) \cup
+    (IF UnusedHybridStmt(body) THEN {"UnusedHybridStmt"} ELSE {}) \cup
+    (IF LoopCondHybrid(body) THEN {"LoopCondHybrid"} ELSE {}) \cup
     (IF CondArmHybrid(body) THEN {"CondArmHybrid"} ELSE {})
         \cup (IF LogicalRhsHybrid(body) THEN {"LogicalRhsHybrid"} ELSE {})
 =============================================================================
